@@ -83,8 +83,57 @@ def dbErrOf : Char → Option DbErr
   | 's' | 'S' => some .snapshotReleased | 'i' | 'I' => some .iterReleased | 'k' | 'K' => some .corrupted
   | '1' => some .generic | _ => none
 
+/-- `w<n><s>` | `r<n>` | `X<n>` | `R<n>` -/
+def parseSCall (s : String) : Option SCall :=
+  match s.toList with
+  | 'w' :: r => do
+    let v ← r.getLast?.bind statusOf
+    let k ← (String.ofList r.dropLast).toNat?
+    pure (.write k v)
+  | 'r' :: r => (String.ofList r).toNat?.map .read
+  | 'X' :: r => (String.ofList r).toNat?.map .record
+  | 'R' :: r => (String.ofList r).toNat?.map .retry
+  | _ => none
+
+def showSRes (c : SCall) (r : SRes) : String :=
+  match c, r with
+  | .write _ _, _ => "nil"
+  | .record _, _ => "d"
+  | _, .status v => showStatus v
+  | _, .emitted n => "r" ++ toString n
+  | _, .done => "d"
+
+def parseSRes (c : SCall) (s : String) : Option SRes :=
+  match c with
+  | .write _ _ => if s == "nil" then some .done else none
+  | .record _ => if s == "d" then some .done else none
+  | .read _ => (s.toList.head?.bind statusOf).map .status
+  | .retry _ => if s.startsWith "r" then ((s.drop 1).toString.toNat?).map .emitted else none
+
 def handle (op : String) (args : List String) (impl : String) : Option Verdict :=
   match op, args with
+  | "overlap", [a, b, init] => some <| Id.run do
+    let some ca := parseSCall a | return bad
+    let some cb := parseSCall b | return bad
+    let some kv := (items init ",").mapM (fun it => match it.splitOn ":" with
+      | [k, v] => do let k ← k.toNat?; let v ← v.toList.head?.bind statusOf; pure (k, v)
+      | _ => none) | return bad
+    let m := kv.reverse
+    let keys := kv.map (·.1)
+    -- the harness suspends A inside the database before it has looked at its key, runs B, then lets A go on
+    let r := runTwo m cb ca
+    let model := showSRes ca r.2.1 ++ "," ++ showSRes cb r.1 ++ "|" ++
+      (if keys.isEmpty then "-" else String.join (keys.map fun k => showStatus (lookup r.2.2 k)))
+    let ok := match impl.splitOn "|" with
+      | [rs, fin] =>
+        match rs.splitOn ",", (chars fin).mapM statusOf with
+        | [ra, rb], some fs =>
+          match parseSRes ca ra, parseSRes cb rb with
+          | some ra, some rb => fs.length == keys.length && decide (PLinear m ca cb ra rb (keys.zip fs) keys)
+          | _, _ => false
+        | _, _ => false
+      | _ => false
+    return ⟨model, ok, s!"overlap:{a.take 1}:{b.take 1}:samekey={ca.key == cb.key}"⟩
   | "propstatus", [kind, stored] => some <| Id.run do
     let some st := (stored.toList.head?).bind statusOf | return bad
     let some k := kind.toList.head? | return bad
@@ -231,6 +280,7 @@ def handle (op : String) (args : List String) (impl : String) : Option Verdict :
         | some sn =>
           mx == "free" && steps.length == ops.length &&
           ((([] : List (Nat × Status)) :: sn).zip steps).all (fun (prev, st) => selOk prev st) &&
+          ((([] : List (Nat × Status)) :: sn).zip (sn.zip ops)).all (fun (prev, (next, op)) => stepOk op prev next n) &&
           (!sequential || (List.range n).all fun k => finalAlong k ([] :: sn))
         | none => false
       | _ => false
